@@ -70,6 +70,19 @@ lemma("firsts_len", [ps, k], Len(firsts(ps, k)) == z3.If(k <= 0, 0, k), patterns
       inst=[[ps, k - 1]], auto=True)
 
 
+# ---- scheme-level form of C06: the keys of a table built from a pair list are in strictly ascending order ---------------------------
+bl_, bl2_ = z3.Consts("bl_ bl2_", BLS)
+asc_bl = specfn("asc_bl", [BL, TInt], TBool, py=lambda xs, k: all(xs[i] < xs[i + 1] for i in range(max(min(k, len(xs)), 1) - 1)),
+                doc="the first k byte strings are strictly ascending")
+asc_bl.define = lambda xs, k: z3.If(k <= 1, True, z3.And(bytes_lt(xs[k - 2], xs[k - 1]), asc_bl(xs, k - 1)))
+lemma("asc_bl_frame", [bl_, bl2_, k], Imp(k <= Len(bl_), asc_bl(z3.Concat(bl_, bl2_), k) == asc_bl(bl_, k)), patterns=None,
+      induct=("int", k), inst=[[bl_, bl2_, k - 1]])
+lemma("firsts_nth", [ps, k, j], Imp(And(0 <= j, j < k), firsts(ps, k)[j] == fst(ps[j])), patterns=None, induct=("int", k),
+      inst=[[ps, k - 1, j]], uses=["firsts_len"])
+lemma("firsts_asc", [ps, k], Imp(strict_asc_upto(ps, k), asc_bl(firsts(ps, k), k)), patterns=None, induct=("int", k), inst=[[ps, k - 1]],
+      uses=["firsts_len", "firsts_nth", "asc_bl_frame"],
+      use_inst=[("firsts_nth", [ps, k - 1, k - 2]), ("asc_bl_frame", [firsts(ps, k - 1), z3.Unit(fst(ps[k - 1])), k - 1])])
+
 # list.sort(key=lambda pair: pair[0]) on a pair list is `sorted_pairs`
 def _sort_hook(E, ref, key, fr, node):
     sv = E.list_sv(ref)
